@@ -51,6 +51,9 @@ def k5_quant(v, q):
 cls("GlyphTuple", isa=("tuple",), notes="a kerning class: an immutable tuple of glyph names, seen as an atom (the functions under contract never look inside one)")
 GCLS = Ref("GlyphTuple")
 SIDE = Union(STR, GCLS)  # a glyph name, or a class
+from pyvc.api import TupleOf  # noqa: E402
+
+SIDE_T = Union(STR, TupleOf(STR))  # the same with the class as a real variable-length tuple (newer engine type)
 KP = Named("KerningPair", side1=SIDE, side2=SIDE, value=REAL)  # frozen dataclass = immutable value
 
 
@@ -166,17 +169,13 @@ _pairs_contract(
 
 
 # =====================================================================================================
-# KerningPair kinds and _makePairPosRule
-#
-# The engine has no symbolic `^`, and `enumerated` is a function of the pair's KIND only, so the rule builder is
-# verified once per kind (glyph/class on either side).  A kind is a class whose side types are fixed; its
-# `firstIsClass` / `secondIsClass` are constants, and that constant is PROVED on the real property functions
-# (contracts `KerningPair.firstIsClass#<kind>` below), so the `derived` fields are backed by discharged contracts.
+# feaLib AST vocabulary of the rule builders (the contracts on _makePairPosRule / make_pairpos_rule are further down, after
+# the KerningPair class with sides of either kind)
 
 from pyvc.core import Val as _Val  # noqa: E402
 
 cls("GlyphClassDef", dynamic=True, notes="feaLib ast.GlyphClassDefinition (assumed attribute bag)")
-cls("FeaGlyphs", fields={"kind": STR, "glyph": STR, "glyphclass": Ref("GlyphClassDef")},
+cls("FeaGlyphs", fields={"kind": STR, "glyph": SIDE_T, "glyphclass": Ref("GlyphClassDef")},
     views={"kind": lambda o: "class" if type(o).__name__ == "GlyphClassName" else "name"},
     notes="feaLib ast.GlyphName / ast.GlyphClassName: one class, `kind` records which constructor built it (assumed)")
 cls("ValueRecord", fields={"xPlacement": Opt(REAL), "yPlacement": Opt(INT), "xAdvance": Opt(REAL), "yAdvance": Opt(INT)}, dynamic=True,
@@ -206,61 +205,6 @@ def _fea_classname(ex, st, args, kwargs, node):
 
 _KINDS = {"gg": (False, False), "gc": (False, True), "cg": (True, False), "cc": (True, True)}
 _KP_MOD = "ufo2ft.featureWriters.kernFeatureWriter"
-
-
-def _const_field(b):
-    return lambda ex, st, self: _Val.const(b)
-
-
-for _k, (_c1, _c2) in _KINDS.items():
-    cls(
-        "KPair_" + _k,
-        fields={"side1": GCLS if _c1 else STR, "side2": GCLS if _c2 else STR, "value": REAL},
-        derived={"firstIsClass": _const_field(_c1), "secondIsClass": _const_field(_c2)},
-        isa=("KerningPair",),
-        notes=f"KerningPair of kind {_k}; firstIsClass/secondIsClass constants are proved on the real properties",
-    )
-    for _prop, _c, _side in (("firstIsClass", _c1, "side1"), ("secondIsClass", _c2, "side2")):
-        contract(
-            f"{_KP_MOD}:KerningPair.{_prop}",
-            name=_k,
-            props=["C05"],
-            params={"self": Ref("KPair_" + _k)},
-            returns=BOOL,
-            ensures={"kind": f"result == {_c}"},
-            canaries={"other": f"result == {not _c}"},
-        )
-    _g1 = "result.glyphs1.kind == 'class' and result.glyphs1.glyphclass == side1Classes[pair.side1]" if _c1 else "result.glyphs1.kind == 'name' and result.glyphs1.glyph == pair.side1"
-    _g2 = "result.glyphs2.kind == 'class' and result.glyphs2.glyphclass == side2Classes[pair.side2]" if _c2 else "result.glyphs2.kind == 'name' and result.glyphs2.glyph == pair.side2"
-    for _tgt, _self in ((f"{_KP_MOD}:KernFeatureWriter._makePairPosRule", {"self": Ref("KernWriter")}),
-                        # the copy in the alternative writer (module-level function, same body)
-                        (f"{_KP_MOD}2:make_pairpos_rule", {})):
-        contract(
-            _tgt,
-            name=_k,
-            props=["C05"],
-            params={**_self, "pair": Ref("KPair_" + _k), "side1Classes": Dict(GCLS, Ref("GlyphClassDef")),
-                    "side2Classes": Dict(GCLS, Ref("GlyphClassDef")), "rtl": BOOL},
-            returns=Ref("PairPosStatement"),
-            # every class side has a glyph class definition: makeAllGlyphClassDefinitions registers one for each class side of
-            # each pair before the rules are made (_makeSplitScriptKernLookups); the code indexes the maps (KeyError otherwise)
-            requires=(["pair.side1 in side1Classes"] if _c1 else []) + (["pair.side2 in side2Classes"] if _c2 else []),
-            ensures={
-                # glyph-class and class-glyph rules are enumerated (so that they land in the glyph-pair format and keep
-                # overriding class-class rules); glyph-glyph and class-class are not
-                "enumerated": f"result.enumerated == {_c1 != _c2}",
-                # the value goes to the x-advance of the FIRST glyph ...
-                "advance": "result.valuerecord1 is not None and result.valuerecord1.xAdvance == pair.value",
-                # ... and, in right-to-left rules only, also to its x-placement
-                "placement": "result.valuerecord1.xPlacement == (pair.value if rtl else None)",
-                "no-y": "result.valuerecord1.yPlacement == (0 if rtl else None) and result.valuerecord1.yAdvance == (0 if rtl else None)",
-                # the second glyph is never adjusted
-                "second-untouched": "result.valuerecord2 is None",
-                "first": _g1,
-                "second": _g2,
-            },
-            canaries={"never-placed": "result.valuerecord1.xPlacement is None"},
-        )
 
 
 # =====================================================================================================
@@ -443,19 +387,6 @@ def _rule_build(d):
     return {"self": KernFeatureWriter(), "pair": KerningPair(s1, s2, d["value"]), "side1Classes": defs1, "side2Classes": defs2, "rtl": d["rtl"]}
 
 
-for _k in _KINDS:
-    CONTRACTS[f"{_KP_MOD}:KernFeatureWriter._makePairPosRule#{_k}"].runtime = Runtime(
-        _rule_cases(_k), _rule_build, call=lambda fn, a: fn(a["self"], a["pair"], a["side1Classes"], a["side2Classes"], a["rtl"])
-    )
-    CONTRACTS[f"{_KP_MOD}2:make_pairpos_rule#{_k}"].runtime = Runtime(
-        _rule_cases(_k), _rule_build, call=lambda fn, a: fn(a["pair"], a["side1Classes"], a["side2Classes"], a["rtl"])
-    )
-    for _prop in ("firstIsClass", "secondIsClass"):
-        CONTRACTS[f"{_KP_MOD}:KerningPair.{_prop}#{_k}"].runtime = Runtime(
-            _rule_cases(_k), lambda d: {"self": _rule_build(d)["pair"]}, call=lambda fn, a: fn.fget(a["self"])
-        )
-
-
 # ---- replay entry of the end-to-end observer (vcheck/hooks/c05.py): `./check replay out/C05/replay/e2e.*.json` ----
 # props=[]: never part of a deductive check (the function is not executed symbolically); it only gives the replay
 # command a registered (contract, case) pair.  The observer itself runs from the hook.
@@ -480,4 +411,165 @@ contract(
     params={},
     bounded_ensures={"no-violation": "result == []"},
     runtime=Runtime(_e2e_gen, lambda case: {"case": case}, call=_e2e_call),
+)
+
+
+# =====================================================================================================
+# KerningPair with sides of either kind in ONE class (variable-length tuple type of the engine): the ordering
+#
+cls("KPairT", fields={"side1": SIDE_T, "side2": SIDE_T, "value": REAL}, repo=f"{_KP_MOD}:KerningPair", isa=("KerningPair",),
+    notes="KerningPair (frozen dataclass): side1 / side2 are a glyph name or a tuple of glyph names")
+for _prop, _side in (("firstIsClass", "side1"), ("secondIsClass", "side2")):
+    contract(
+        f"{_KP_MOD}:KerningPair.{_prop}",
+        name="KPairT",
+        props=["C05"],
+        params={"self": Ref("KPairT")},
+        returns=BOOL,
+        ensures={"is-tuple": f"result == isinstance(self.{_side}, tuple)"},
+        canaries={"never": "not result"},
+    )
+
+
+@specfn(INT, s=SIDE_T)
+def k5_is_class(s):
+    return 1 if isinstance(s, tuple) else 0
+
+
+_RANK = "(2 * k5_is_class({p}.side1) + k5_is_class({p}.side2))"
+contract(
+    f"{_KP_MOD}:KerningPair.__lt__",
+    props=["C05"],
+    params={"self": Ref("KPairT"), "other": Ref("KPairT")},
+    returns=BOOL,
+    ensures={
+        # the kind decides first: glyph-glyph < glyph-class < class-glyph < class-class ...
+        "kind-first": "implies(2 * k5_is_class(self.side1) + k5_is_class(self.side2) < 2 * k5_is_class(other.side1) + k5_is_class(other.side2), result)",
+        "kind-first-rev": "implies(2 * k5_is_class(self.side1) + k5_is_class(self.side2) > 2 * k5_is_class(other.side1) + k5_is_class(other.side2), not result)",
+        "irreflexive": "implies(self.side1 == other.side1 and self.side2 == other.side2, not result)",
+        # ... and within one kind the sides decide, first side first (str / tuple comparison of Python): the whole result
+        "order": "result == (" + _RANK.format(p="self") + " < " + _RANK.format(p="other") + " or (" + _RANK.format(p="self") + " == " + _RANK.format(p="other")
+                 + " and (self.side1 < other.side1 or (self.side1 == other.side1 and self.side2 < other.side2))))",
+    },
+    canaries={"always": "result"},
+)
+
+
+def _lt_cases(rng, n):
+    sides = ["a", "b", ["a"], ["a", "b"], ["b"], []]
+    allc = [{"s": [s1, s2], "o": [o1, o2]} for s1 in sides for s2 in sides for o1 in sides for o2 in sides]
+    rng.shuffle(allc)
+    return allc[:n]
+
+
+def _lt_build(d):
+    from ufo2ft.featureWriters.kernFeatureWriter import KerningPair
+
+    def side(x):
+        return tuple(x) if isinstance(x, list) else x
+
+    return {"self": KerningPair(side(d["s"][0]), side(d["s"][1]), 0), "other": KerningPair(side(d["o"][0]), side(d["o"][1]), -5)}
+
+
+CONTRACTS[f"{_KP_MOD}:KerningPair.__lt__"].runtime = Runtime(_lt_cases, _lt_build, call=lambda fn, a: fn(a["self"], a["other"]))
+for _prop in ("firstIsClass", "secondIsClass"):
+    CONTRACTS[f"{_KP_MOD}:KerningPair.{_prop}#KPairT"].runtime = Runtime(_lt_cases, lambda d: {"self": _lt_build(d)["self"]}, call=lambda fn, a: fn.fget(a["self"]))
+
+
+# =====================================================================================================
+# _splitBaseAndMarkPairs (and the copy kernFeatureWriter2.split_base_and_mark_pairs): base/mark disentangling
+
+
+def _kp_new_obj(ex, st, args, kwargs, node):
+    """dataclass-generated constructor (as _kp_new), producing a KPairT object"""
+    names = ["side1", "side2", "value"]
+    bound = dict(zip(names, args))
+    bound.update(kwargs)
+    o = ex.new_object(st, "KPairT")
+    for n in names:
+        ex.write_field(st, o, n, bound[n], node)
+    return o
+
+
+# (skeleton, not registered: `for glyph in pair.side1` iterates a Union(STR, TupleOf(STR)) whose alternative is fixed by the
+# path condition only - engine request filed; until then the function stays under the end-to-end observer)
+contract(
+    f"{_KP_MOD}:KernFeatureWriter._splitBaseAndMarkPairs",
+    props=["C05"],
+    params={"self": Ref("KernWriter"), "pairs": List(Ref("KPairT")), "marks": Set(STR)},
+    returns=Tuple(List(Ref("KPairT")), List(Ref("KPairT"))),
+    models={f"{_KP_MOD}.KerningPair": _kp_new_obj},
+    ensures={"trivial": "True"},
+    canaries={"no-marks": "len(result[1]) == 0"},
+    locals={"basePairs": List(Ref("KPairT")), "markPairs": List(Ref("KPairT"))},
+)
+
+
+# =====================================================================================================
+# _makePairPosRule / make_pairpos_rule for a pair of ANY kind (one contract: `firstIsClass ^ secondIsClass` on the real
+# properties, sides typed str | tuple[str, ...]).  (First wave: four variants per pair kind with constant kind bits.)
+
+_IS1, _IS2 = "isinstance(pair.side1, tuple)", "isinstance(pair.side2, tuple)"
+for _tgt, _self in ((f"{_KP_MOD}:KernFeatureWriter._makePairPosRule", {"self": Ref("KernWriter")}), (f"{_KP_MOD}2:make_pairpos_rule", {})):
+    contract(
+        _tgt,
+        name="any",
+        props=["C05"],
+        params={**_self, "pair": Ref("KPairT"), "side1Classes": Dict(SIDE_T, Ref("GlyphClassDef")), "side2Classes": Dict(SIDE_T, Ref("GlyphClassDef")), "rtl": BOOL},
+        returns=Ref("PairPosStatement"),
+        # every class side has a glyph class definition (makeAllGlyphClassDefinitions registers one for each class side of each
+        # pair before the rules are made); the code indexes the maps (KeyError otherwise)
+        requires=[f"implies({_IS1}, pair.side1 in side1Classes)", f"implies({_IS2}, pair.side2 in side2Classes)"],
+        ensures={
+            # glyph-class and class-glyph rules are enumerated; glyph-glyph and class-class are not
+            "enumerated": f"result.enumerated == ({_IS1} != {_IS2})",
+            "advance": "result.valuerecord1 is not None and result.valuerecord1.xAdvance == pair.value",
+            "placement": "result.valuerecord1.xPlacement == (pair.value if rtl else None)",
+            "no-y": "result.valuerecord1.yPlacement == (0 if rtl else None) and result.valuerecord1.yAdvance == (0 if rtl else None)",
+            "second-untouched": "result.valuerecord2 is None",
+            "first-class": f"implies({_IS1}, result.glyphs1.kind == 'class' and result.glyphs1.glyphclass == side1Classes[pair.side1])",
+            "first-glyph": f"implies(not {_IS1}, result.glyphs1.kind == 'name' and result.glyphs1.glyph == pair.side1)",
+            "second-class": f"implies({_IS2}, result.glyphs2.kind == 'class' and result.glyphs2.glyphclass == side2Classes[pair.side2])",
+            "second-glyph": f"implies(not {_IS2}, result.glyphs2.kind == 'name' and result.glyphs2.glyph == pair.side2)",
+        },
+        canaries={"never-placed": "result.valuerecord1.xPlacement is None", "never-enumerated": "not result.enumerated"},
+    )
+
+
+def _rule_any_cases(rng, n):
+    return [{"kind": k, "rtl": r, "value": v} for k in _KINDS for r in (False, True) for v in (-50, 0, 12.5)][:n]
+
+
+CONTRACTS[f"{_KP_MOD}:KernFeatureWriter._makePairPosRule#any"].runtime = Runtime(
+    _rule_any_cases, _rule_build, call=lambda fn, a: fn(a["self"], a["pair"], a["side1Classes"], a["side2Classes"], a["rtl"]))
+CONTRACTS[f"{_KP_MOD}2:make_pairpos_rule#any"].runtime = Runtime(
+    _rule_any_cases, _rule_build, call=lambda fn, a: fn(a["pair"], a["side1Classes"], a["side2Classes"], a["rtl"]))
+
+
+# ---- the glyphs of a pair's sides (properties firstGlyphs / secondGlyphs / glyphs) ------------------------------------------
+for _prop, _side in (("firstGlyphs", "side1"), ("secondGlyphs", "side2")):
+    contract(
+        f"{_KP_MOD}:KerningPair.{_prop}",
+        name="KPairT",
+        props=["C05"],
+        params={"self": Ref("KPairT")},
+        returns=TupleOf(STR),
+        ensures={
+            "class": f"implies(isinstance(self.{_side}, tuple), result == self.{_side})",
+            "glyph": f"implies(not isinstance(self.{_side}, tuple), len(result) == 1 and result[0] == self.{_side})",
+        },
+        canaries={"always-one": "len(result) == 1"},
+        runtime=Runtime(_lt_cases, lambda d: {"self": _lt_build(d)["self"]}, call=lambda fn, a: fn.fget(a["self"])),
+    )
+# (not registered: `(*self.firstGlyphs, *self.secondGlyphs)` - starred elements of symbolic length in a tuple display are
+# outside the engine, request 12)
+contract(
+    f"{_KP_MOD}:KerningPair.glyphs",
+    name="KPairT",
+    props=[],
+    params={"self": Ref("KPairT")},
+    returns=TupleOf(STR),
+    ensures={"concat": "list(result) == list(self.firstGlyphs) + list(self.secondGlyphs)"},
+    canaries={"only-first": "list(result) == list(self.firstGlyphs)"},
+    runtime=Runtime(_lt_cases, lambda d: {"self": _lt_build(d)["self"]}, call=lambda fn, a: fn.fget(a["self"])),
 )
